@@ -16,3 +16,32 @@ Proof.
   - rewrite Hj. apply from_fen_print; assumption.
   - rewrite gate_reset_hash. apply gate_accepts_valid_material, M.
 Qed.
+
+(* the whole position command (installation and move list): no panic; whenever the command is
+   rejected (too few arguments, parser error, piece-count gate) the board is the board before it.
+   The command reads no driver state other than the board, so this holds after any history. *)
+From Chess3 Require Import Model.ApplyMoves Model.FenSeq.
+
+Theorem handle_position_moves_keep z d args :
+  exists d' code, handle_position_moves z d args = Ok (d', code) /\
+                  (code = 1%N \/ code = 2%N \/ code = 3%N -> d' = d).
+Proof.
+  unfold handle_position_moves.
+  destruct (handle_position_total z d args) as (d1 & c1 & -> & Hk).
+  destruct (N.eqb_spec c1 0) as [->|Hne]; cbn [negb].
+  - assert (G : forall b c, (c = 0%N \/ c = 4%N) ->
+              exists d' code, @Ok (board * N) (b, c) = Ok (d', code) /\ (code = 1%N \/ code = 2%N \/ code = 3%N -> d' = d)).
+    { intros b c Hc. exists b, c. split; [reflexivity|]. intros [E|[E|E]]; destruct Hc; congruence. }
+    assert (P : forall b toks, snd (play_moves z b toks) = 0%N \/ snd (play_moves z b toks) = 4%N).
+    { intros b toks. unfold play_moves. cbn [snd]. destruct (_ <? _)%nat; auto. }
+    destruct args as [|a0 rest]; [apply G; auto|].
+    destruct (list_eqb a0 tok_startpos).
+    { destruct (_ && _); [|apply G; auto].
+      destruct (play_moves z d1 (skipn 2 (a0 :: rest))) as [b c] eqn:E. apply G.
+      specialize (P d1 (skipn 2 (a0 :: rest))). rewrite E in P. exact P. }
+    destruct (list_eqb a0 tok_fen); [|apply G; auto].
+    destruct (_ && _); [|apply G; auto].
+    destruct (play_moves z d1 (skipn 8 (a0 :: rest))) as [b c] eqn:E. apply G.
+    specialize (P d1 (skipn 8 (a0 :: rest))). rewrite E in P. exact P.
+  - exists d1, c1. split; [reflexivity|]. intros _. apply Hk, Hne.
+Qed.
